@@ -574,7 +574,7 @@ func c10Random(env *Env, ttlSecs uint32, depth int, nkeys int) (string, string) 
 // exhaustive enumeration of all sequences of the alphabet
 //   T k 0 (each key) [, T k 1 when tags2], B k (each key), A ttl, A ttl/2 (when half), every
 //   enabled F t, every enabled S c, every enabled E c
-// of exactly the given depth (every shorter sequence is a prefix and is observed step by step).
+// up to the given depth.
 func c10Enumerate(env *Env, ttlSecs uint32, keys []c10Key, tags2, half bool, depth int, class string) {
 	ttl := c10TTLns(ttlSecs)
 	var rec func(prefix []c10Act)
@@ -584,10 +584,14 @@ func c10Enumerate(env *Env, ttlSecs uint32, keys []c10Key, tags2, half bool, dep
 		for _, a := range prefix {
 			out = append(out, s.Do(a))
 		}
-		if len(prefix) == depth || s.dead {
-			s.Close()
+		if len(prefix) > 0 {
+			// every node is a case of its own (not only the leaves), so that the shortest
+			// failing case reported is a minimal prefix
 			env.Count(class)
 			env.Emit(c10CaseLine(ttlSecs, prefix), strings.Join(out, " "))
+		}
+		if len(prefix) == depth || s.dead {
+			s.Close()
 			return
 		}
 		choices := []c10Act{}
